@@ -151,7 +151,19 @@ def run(tier, seed):
             if tier == 'quick': modes = [r.choice(modes)] if r.random() < 0.8 else modes
             for m in modes:
                 cases.append({'a': a, 'b': bb, 'ignored': sorted(ign), 'mode': m, 'kind': kind})
-    tasks = [{'op': 'nbdiff_ignore', 'a': c['a'], 'b': c['b'], 'ignored': c['ignored'], 'mode': c['mode'], 'mapping': mapping_for(set(c['ignored'])), 'render': True} for c in cases]
+    # the boolean selection followed by an Ignore mapping with key lists on the same paths (server extension order):
+    # what the selection ignores must stay ignored, and the listed keys are ignored too
+    for (a, bb, kind) in pairs[:(14 if tier == 'quick' else 80)]:
+        for _ in range(3 if tier == 'quick' else 6):
+            first = frozenset(c for c in CATS if r.random() < 0.4)
+            second = frozenset(r.sample(['id', 'details'], r.choice([1, 1, 2])))
+            m2 = {}
+            keys = (['execution_count'] if 'details' in second else []) + (['id'] if 'id' in second else [])
+            m2['/cells/*'] = keys
+            if 'details' in second: m2['/cells/*/outputs/*'] = ['execution_count']
+            cases.append({'a': a, 'b': bb, 'ignored': sorted(first | second), 'mode': 'api+cfg', 'kind': kind, 'first': sorted(first), 'mapping2': m2})
+    tasks = [{'op': 'nbdiff_ignore', 'a': c['a'], 'b': c['b'], 'ignored': c['ignored'], 'mode': c['mode'], 'first': c.get('first'),
+              'mapping': c.get('mapping2') or mapping_for(set(c['ignored'])), 'render': True} for c in cases]
     if os.environ.get('VERIF_DUMP_TASKS'):
         json.dump(tasks, open(os.environ['VERIF_DUMP_TASKS'], 'w')); print('dumped', len(tasks)); return 0
     results = core.run_impl(tasks, shards=14)
@@ -160,18 +172,18 @@ def run(tier, seed):
         hist[c['mode']] = hist.get(c['mode'], 0) + 1
         if res.get('ok'): nontrivial.add(pyspec.canon([c['ignored'], c['mode'], res['ok']]))
         sig, detail = judge(c, res)
-        if sig: chk.violation(sig, {'a': c['a'], 'b': c['b'], 'ignored': c['ignored'], 'mode': c['mode']}, detail)
+        if sig: chk.violation(sig, {'a': c['a'], 'b': c['b'], 'ignored': c['ignored'], 'mode': c['mode'], 'first': c.get('first'), 'mapping2': c.get('mapping2')}, detail)
         if not sig and 'err' not in res:
             if 'render_headings' in res or 'render_error' in res: rendered += 1
             sig, detail = judge_render(c, res)
-            if sig: chk.violation(sig, {'a': c['a'], 'b': c['b'], 'ignored': c['ignored'], 'mode': c['mode']}, detail)
+            if sig: chk.violation(sig, {'a': c['a'], 'b': c['b'], 'ignored': c['ignored'], 'mode': c['mode'], 'first': c.get('first'), 'mapping2': c.get('mapping2')}, detail)
     chk.cov['rendered_cases_judged'] = rendered
     # T1: the model under the generated table of the subset must output nbdime's diff exactly
     t1 = 0; mism = 0
     if getattr(b, 'model_ok', False):
         lines = []; idx = []
         for i, (c, res) in enumerate(zip(cases, results)):
-            if c['mode'] == 'cfg' or 'oracles' not in res: continue
+            if c['mode'] in ('cfg', 'api+cfg') or 'oracles' not in res: continue
             if c['mode'] == 'pos' and len(c['ignored']) == 6: continue
             if tier == 'quick' and i % 3: continue
             index = sum((1 << (5 - k)) for k, cat in enumerate(CATS) if cat in c['ignored'])
@@ -197,7 +209,8 @@ def run(tier, seed):
 
 def replay(path):
     body = json.load(open(path)); c = body['case']
-    res = core.run_impl([{'op': 'nbdiff_ignore', 'a': c['a'], 'b': c['b'], 'ignored': c['ignored'], 'mode': c['mode'], 'mapping': mapping_for(set(c['ignored'])), 'render': True}])[0]
+    res = core.run_impl([{'op': 'nbdiff_ignore', 'a': c['a'], 'b': c['b'], 'ignored': c['ignored'], 'mode': c['mode'], 'first': c.get('first'),
+                          'mapping': c.get('mapping2') or mapping_for(set(c['ignored'])), 'render': True}])[0]
     sig, detail = judge(c, res)
     if not sig and 'err' not in res: sig, detail = judge_render(c, res)
     print(json.dumps({'signature': sig, 'detail': detail}, default=str)[:2000])
